@@ -241,6 +241,12 @@ def _discharge_call(F, b, tb, i, t):
             if ok and var_of(x) == var_of(s0):
                 return "new length is the length of a right-trimmed prefix of the same string (≤ len, on a char boundary)"
         return None
+    # slice.windows(K) / chunks(K) … panic only for a size of zero
+    if m in ("windows", "chunks", "chunks_exact", "rchunks", "rchunks_exact", "chunks_mut", "chunks_exact_mut") and "slice" in cal and len(t["args"]) == 2:
+        k = op_const(t["args"][1])
+        if k is not None and "int" in k and int(k["int"]) >= 1:
+            return f"constant non-zero size {k['int']}"
+        return None
     # Vec::remove(pos) where pos comes from position() on the same Vec
     if cal.endswith("::remove") and "Vec" in cal and len(t["args"]) == 2:
         term = tb.operand(t["args"][1])
@@ -767,6 +773,9 @@ def _discharge_assert(F, b, tb, i, t, msg, ops):
             cont = _len_container(tb.operand(t["ops"][0]))
             if cont is not None and _len_guard_const(b, tb, i, None, kt[1], cont_term=cont):
                 return f"constant index {kt[1]} under a dominating length test on the same slice"
+            why = _window_element(F, b, cont, kt[1])
+            if why:
+                return why
         return None
     if msg.startswith("Overflow(Add)") or msg.startswith("Overflow(Sub)"):
         tys = [_op_ty(b, o) for o in t["ops"]]
@@ -814,6 +823,31 @@ def _discharge_assert(F, b, tb, i, t, msg, ops):
 
 
 _WIDTH = {"u8": 8, "i8": 8, "u16": 16, "i16": 16, "u32": 32, "i32": 32, "u64": 64, "i64": 64, "u128": 128, "i128": 128}
+
+
+def _window_element(F, b, cont, n):
+    """`w[n]` in a closure whose parameter is an item of `slice.windows(K)` / `chunks_exact(K)` with a constant K > n"""
+    if b.kind != "closure" or b.parent not in F.bodies:
+        return None
+    c = cont
+    while isinstance(c, tuple) and c and c[0] in ("field", "deref", "ref") and len(c) > 1 and isinstance(c[1], tuple):
+        c = c[1]
+    if not (isinstance(c, tuple) and c and c[0] == "param" and c[1] >= 1):
+        return None
+    pb = F.bodies[b.parent]
+    ptb = Terms(F, pb, inline_depth=0)
+    for i, t in pb.calls():
+        if parse_callee(t["callee"])[2] not in _ELEMENT_ADAPTERS or len(t["args"]) < 2:
+            continue
+        clo = ptb.operand(t["args"][1])
+        if not (isinstance(clo, tuple) and clo and clo[0] == "closure" and clo[1] == b.id):
+            continue
+        recv = ptb.operand(t["args"][0])
+        for x in subterms(recv):
+            if isinstance(x, tuple) and x and x[0] == "call" and parse_callee(x[1])[2] in ("windows", "chunks_exact", "rchunks_exact") and len(x[2]) == 2 \
+                    and isinstance(x[2][1], tuple) and x[2][1][:1] == ("int",) and x[2][1][1] > n:
+                return f"constant index {n} into an item of {parse_callee(x[1])[2]}({x[2][1][1]}) (every item has exactly that many elements)"
+    return None
 
 
 def _widened(b, op, ty):
